@@ -110,7 +110,7 @@ def get_repo():
         canon.apply_to_ast(data0, renames)
     # 3. structure: helpers extracted since the reference tree (still unknown after step 2) are read in place; calls of locally named
     #    closures as the closure's body
-    inlined = canon.inline_new_helpers(data0, {k for k in ref if not k.startswith("__")}) if ref else []
+    inlined = canon.inline_new_helpers(data0, {k for k in ref if not k.startswith("__")}, set(ref["__methods__"]) if "__methods__" in ref else None) if ref else []
     canon.inline_local_closures(data0)
     _repo = ast.Repo(out, REPO, _data=data0)
     _repo.desugared_loops = n_loops
